@@ -17,6 +17,11 @@ open PdfVerif PdfVerif.Lenient
 
 abbrev P (α : Type) := List String → Option (α × List String)
 
+/-- names and dictionary keys: bytes <-> characters 0..255, one to one -/
+def strOfBytes (b : Bytes) : String := String.ofList (b.map (fun c => Char.ofNat c.toNat))
+def bytesOfStr (s : String) : Bytes := s.toList.map (fun c => UInt8.ofNat c.toNat)
+def hexOfStr (s : String) : String := hexOrDash (bytesOfStr s)
+
 partial def parseObj : P Obj
   | [] => none
   | t :: rest =>
@@ -27,7 +32,7 @@ partial def parseObj : P Obj
     | 'I' => body.toInt?.map (fun i => (.int i, rest))
     | 'Q' => (ratOfString body).map (fun q => (.real q, rest))
     | 'S' => (bytesOfHex body).map (fun b => (.str b, rest))
-    | 'M' => (bytesOfHex body).map (fun b => (.name b, rest))
+    | 'M' => (bytesOfHex body).map (fun b => (.name (strOfBytes b), rest))
     | 'R' => body.toNat?.map (fun n => (.ref n, rest))
     | 'A' => do
       let k ← body.toNat?
@@ -53,7 +58,7 @@ where
       let (x, ts) ← parseObj ts
       let (xs, ts) ← parseMany k ts
       pure (x :: xs, ts)
-  parseKvs : Nat → P (List (Bytes × Obj))
+  parseKvs : Nat → P (List (String × Obj))
     | 0, ts => some ([], ts)
     | k + 1, ts =>
       match ts with
@@ -61,7 +66,7 @@ where
         let kb ← bytesOfHex key
         let (x, ts) ← parseObj ts
         let (xs, ts) ← parseKvs k ts
-        pure ((kb, x) :: xs, ts)
+        pure ((strOfBytes kb, x) :: xs, ts)
       | [] => none
 
 partial def showObj : Obj → String
@@ -70,12 +75,12 @@ partial def showObj : Obj → String
   | .int i => "I" ++ toString i
   | .real q => "Q" ++ ratToString q
   | .str s => "S" ++ hexOrDash s
-  | .name s => "M" ++ hexOrDash s
+  | .name s => "M" ++ hexOfStr s
   | .ref n => "R" ++ toString n
   | .arr xs => " ".intercalate (("A" ++ toString xs.length) :: xs.map showObj)
-  | .dict kvs => " ".intercalate (("D" ++ toString kvs.length) :: kvs.map (fun kv => hexOrDash kv.1 ++ " " ++ showObj kv.2))
+  | .dict kvs => " ".intercalate (("D" ++ toString kvs.length) :: kvs.map (fun kv => hexOfStr kv.1 ++ " " ++ showObj kv.2))
   | .stream kvs d => " ".intercalate (("T" ++ toString kvs.length) :: hexOrDash d ::
-      kvs.map (fun kv => hexOrDash kv.1 ++ " " ++ showObj kv.2))
+      kvs.map (fun kv => hexOfStr kv.1 ++ " " ++ showObj kv.2))
 
 def showErr (e : Err) : String :=
   match e.className with
